@@ -1,24 +1,15 @@
 ---------------------------- MODULE CoerceTables ----------------------------
-(* C19 - coercion of a node to another kind.                                  *)
+(* C19 - coercion of a node to another kind: the data part of the spec.       *)
 (*                                                                            *)
-(* Part 1 (data): node kinds of the 3.12 grammar + pfst's special slices, the  *)
-(* parse modes of fst.parsex.Mode (+ every kind name as a "class mode"), the   *)
-(* kinds admitted per mode (KindsOf, written from Python.asdl / the Mode docs  *)
-(* and docs/d08_coerce.py, not from the implementation), the embedding table   *)
-(* that *defines* "parses in mode m" in terms of CPython's own parser, the     *)
+(* Node kinds of the 3.12 grammar + pfst's special slices, the parse modes of  *)
+(* fst.parsex.Mode (+ every kind name as a "class mode"), the kinds admitted   *)
+(* per mode (KindsOf, written from Python.asdl / the Mode docs and             *)
+(* docs/d08_coerce.py, not from the implementation), the embedding table that  *)
+(* *defines* "parses in mode m" in terms of CPython's own parser, the          *)
 (* (source kind x mode) matrix Cell, and the put-slot catalogue.               *)
-(*                                                                            *)
-(* Part 2 (behaviour): the object life-cycle of coercion as a state machine:   *)
-(* Coerce(o, m, copy) either raises or yields a result of a kind admitted by   *)
-(* m with the operand's content; identity when the operand already fits and    *)
-(* is a root and no copy was asked; the operand of a copying coercion stays    *)
-(* valid and unchanged; a destructive coercion consumes a root operand (docs:  *)
-(* "should be considered consumed after the call, even if the coercion         *)
-(* fails"); Put with coercion == Coerce then native Put; Put with coercion     *)
-(* disabled and a kind outside the slot's mode raises and changes nothing.     *)
-(* CoerceMC.tla model-checks part 2 on a small kind/mode subset and checks     *)
-(* totality of part 1 and emits it as JSON; CoerceTrace.tla judges recorded    *)
-(* executions of the real pfst against the same definitions.                   *)
+(* Coerce.tla (behaviour: object life-cycle) and CoerceTrace.tla (judging      *)
+(* recorded executions of the real pfst) extend this module; CoerceMC.tla      *)
+(* checks totality and emits the tables as JSON for the harness.               *)
 EXTENDS Integers, Sequences, FiniteSets
 
 (* ------------------------------------------------------------------------ *)
